@@ -26,7 +26,7 @@ CASES = [
  ('U18','refill.rs',"        if idx == 0 {\n            unfilled.push_str(&line[options.initial_indent.len()..]);\n        } else {\n            unfilled.push(' ');\n            unfilled.push_str(&line[options.subsequent_indent.len()..]);\n        }","        if idx != 0 {\n            unfilled.push(' ');\n            unfilled.push_str(&line[options.subsequent_indent.len()..]);\n        } else {\n            unfilled.push_str(&line[options.initial_indent.len()..]);\n        }","invert if/else in unfill"),
  ('U21','refill.rs',"    new_options.initial_indent = options.initial_indent;\n    new_options.subsequent_indent = options.subsequent_indent;","    new_options.subsequent_indent = options.subsequent_indent;\n    new_options.initial_indent = options.initial_indent;","swap independent assignments in refill"),
  ('U21','refill.rs',"    if stripped.is_some() {\n        refilled.push_str(new_line_ending);","    if !stripped.is_none() {\n        refilled.push_str(new_line_ending);","is_some as !is_none"),
- ('U19','fill.rs',"    if text.len() < options.width && !text.contains('\\n') && options.initial_indent.is_empty() {","    if !text.contains('\\n') && text.len() < options.width && options.initial_indent.is_empty() {","swap conjuncts in fill"),
+ ('U12','fill.rs',"    if text.len() < options.width && !text.contains('\\n') && options.initial_indent.is_empty() {","    if !text.contains('\\n') && text.len() < options.width && options.initial_indent.is_empty() {","swap conjuncts in fill"),
  ('U20','word_separators.rs',"                last_stripped_idx += ch.len_utf8();","                last_stripped_idx = last_stripped_idx + ch.len_utf8();","expand += in idx_map"),
  ('U20','word_separators.rs',"            if *idx == stripped.len() {","            if stripped.len() == *idx {","flip equality in filter"),
 ]
